@@ -29,6 +29,7 @@ HealthStep == scn' = [scn EXCEPT !.steps = Append(@, [op |-> "health"])]
 Shape == CASE Pattern = 1 -> <<"req", "burst">>
            [] Pattern = 2 -> <<"req", "health", "burst">>
            [] Pattern = 3 -> <<"burst">>
+           [] Pattern = 5 -> <<"req", "burst", "burst", "burst">>   \* one request, then three waves of concurrent ones
            [] Pattern = 4 -> [i \in 1..11 |-> "req"]      \* long enough to open an engine breaker (threshold 5) under round-robin
            [] OTHER -> <<>>
 Len0 == IF Pattern = 0 THEN NSteps ELSE Len(Shape)
